@@ -226,6 +226,8 @@ def correspondence(ctx):
             ctx.mismatch("iso.%s" % item[0], {"entry": item[0], "sep": item[1], "zero_as_utc": item[2], "kind": item[3],
                                               "string": item[4]}, i, g)
     ctx.traces += len(reqs)
+    # the translated scanners (Generated/IsoKernels.lean) against the implementation, same stream
+    ic.validate_translation(ctx, [it[:5] for it in stream], impl)
 
 
 def oracle(ctx):
@@ -234,7 +236,7 @@ def oracle(ctx):
     # seed with correspondence differences
     for mm in ctx.mismatches:
         c = mm["input"]
-        if isinstance(c, dict) and "string" in c:
+        if isinstance(c, dict) and "string" in c and c.get("entry") in ("isoparse", "date", "time", "tz"):
             stream.append((c["entry"], c["sep"], c["zero_as_utc"], c["kind"], c["string"], True))
             impl.append(ic.entry_impl(c["entry"], c["string"], c["sep"], c["zero_as_utc"], c["kind"]))
     # the spec is asked about every accepted string
